@@ -270,6 +270,7 @@ Fixpoint def_rows (defs : list (list Z * list Z)) (longest rightWidth : Z) (line
       do pad <- (if glen termr <? longest then repeat_str [SP] (longest - glen termr) else Ok []);
       let leftCol := {| b_lines := [[SP; SP] ++ termr ++ pad]; b_sep := []; b_trailing := false |} in
       do rightCol <- wrap (decode def) (rightWidth - 2) lineSep;
+      let rightCol := if tb_len rightCol =? 0 then tb_append rightCol [] else rightCol in
       do rightCol <- tb_apply (fun idx line => Ok [(if idx =? 0 then [HYPHEN; SP] else [SP; SP]) ++ line]) rightCol;
       do combined <- combine_column_blocks leftCol rightCol 2;
       do fc <- (if (0 <? tb_len full) && (0 <? tb_len combined) then
